@@ -281,6 +281,10 @@ struct s // p20
     long a; // p24
 #endif
 }; // p25
+#define XB if (x) { // pb
+#define XE }
+#define XD do { /* pc */ \
+    // pd
 #define AND &&
 #define OR ||
 #define EQ =
@@ -304,6 +308,23 @@ int v = 1 + // p26
 """
 
 
+# backslash-newlines between the tokens of ordinary code (outside directives): the two lines are one logical line
+SPLICE = """int \\
+sz;
+long \\
+int slz = 1 + \\
+2;
+void sf(int a) { return \\
+; }
+int sg(int a) { return \\
+a; }
+double sd = 019.5 + 08.5e1 + 09. + 0778;
+int sh = sizeof \\
+(int) + sizeof \\
+sz;
+"""
+
+
 def variants(lang):
     """[(name, text)]: the dense program with '//' comments, with /* */ comments, and with no comments"""
     base = DENSE[lang]
@@ -319,6 +340,7 @@ def variants(lang):
     if lang in ("C", "CPP"):
         out.append(("tc", TRAILCMT))
         out.append(("pp", PPSPLIT))
+        out.append(("sp", SPLICE))
         out.append(("ppn", "\n".join(l[:l.index(" // p")] if " // p" in l else l for l in PPSPLIT.split("\n"))))
     return out
 
@@ -359,11 +381,14 @@ def directed_configs(unc, rng, quick):
         rest.insert(0, ("indent_cmt_with_tabs tab=%d" % tab, "indent_cmt_with_tabs=true\noutput_tab_size=%d\nalign_right_cmt_span=0\n" % tab))
     rest.append(("code_width=30", "code_width=30\n"))
     rest.append(("code_width=60", "code_width=60\nls_func_split_full=true\nls_for_split_full=true\n"))
+    rest.insert(0, ("splice", "sp_before_nl_cont=remove\nindent_columns=0\nindent_with_tabs=0\n"))
+    rest.insert(0, ("all nl force in macros", cfggen.all_iarf(unc, "nl_", "force") + "nl_define_macro=true\n"))
+    rest.insert(0, ("all nl remove in macros", cfggen.all_iarf(unc, "nl_", "remove") + "nl_define_macro=true\n"))
     rest.append(("all nl remove", cfggen.all_iarf(unc, "nl_", "remove")))
     rest.append(("all nl force", cfggen.all_iarf(unc, "nl_", "force")))
     if quick:
-        keep = [r for r in rest if r[0].startswith("indent_cmt_with_tabs")]
-        rest = [r for r in rest if not r[0].startswith("indent_cmt_with_tabs")]
+        keep = [r for r in rest if r[0].startswith(("indent_cmt_with_tabs", "splice", "all nl force in", "all nl remove in"))]
+        rest = [r for r in rest if not r[0].startswith(("indent_cmt_with_tabs", "splice", "all nl force in", "all nl remove in"))]
         rng.shuffle(rest)
         rest = keep + rest[:90] + [r for r in rest[90:] if r[0].startswith("all nl")]
     return out + rest
